@@ -240,6 +240,26 @@ func c12ForeignObjects(schemas ast.Schemas, schema *ast.Schema) c12Foreign {
 	return res
 }
 
+// c12DanglingIR: references of the schema's objects (and of the foreign objects they reach) whose
+// target does not exist in the loaded schemas: the INPUT is not closed, nothing the emitter could do.
+func c12DanglingIR(schemas ast.Schemas, schema *ast.Schema) []string {
+	var bad []string
+	check := func(t ast.Type) {
+		var refs []ast.RefType
+		c12RefsOfType(t, &refs)
+		for _, r := range refs {
+			if _, ok := schemas.LocateObject(r.ReferredPkg, r.ReferredType); !ok {
+				bad = append(bad, r.ReferredPkg+"."+r.ReferredType)
+			}
+		}
+	}
+	schema.Objects.Iterate(func(_ string, o ast.Object) { check(o.Type) })
+	for _, o := range c12ForeignObjects(schemas, schema).objs {
+		check(o.Type)
+	}
+	return bad
+}
+
 // ---- presence + carried over ---------------------------------------------------------------
 
 func c12JSONOf(v any) (JV, bool) {
@@ -533,6 +553,90 @@ func c12CheckDefinitions(schemas ast.Schemas, schema *ast.Schema, defs JV, prefi
 	return c.fails
 }
 
+// ---- known mechanisms as schema repairs ----------------------------------------------------
+
+// c12RepairNode rewrites the emitted node of an IR type: fixAny turns the `{type: object}` written for
+// `any` (and composable slots) into the unconstrained schema; fixNull admits `null` wherever the IR
+// type is nullable. The walk follows the IR, not the document, so it only touches nodes the emitter
+// wrote for these reasons.
+func c12RepairNode(t ast.Type, node JV, fixAny, fixNull bool) JV {
+	if node.K != 'o' {
+		return node
+	}
+	out := node.clone()
+	switch {
+	case t.Kind == ast.KindScalar && t.Scalar != nil && t.Scalar.ScalarKind == ast.KindAny, t.Kind == ast.KindComposableSlot:
+		if fixAny {
+			out = jObj()
+		}
+	case t.Kind == ast.KindStruct && t.Struct != nil:
+		if props, ok := out.get("properties"); ok && props.K == 'o' {
+			np := props.clone()
+			for _, f := range t.Struct.Fields {
+				if p, ok := np.get(f.Name); ok {
+					np.set(f.Name, c12RepairNode(f.Type, p, fixAny, fixNull))
+				}
+			}
+			out.set("properties", np)
+		}
+	case t.Kind == ast.KindArray && t.Array != nil:
+		if it, ok := out.get("items"); ok {
+			out.set("items", c12RepairNode(t.Array.ValueType, it, fixAny, fixNull))
+		}
+	case t.Kind == ast.KindMap && t.Map != nil:
+		if it, ok := out.get("additionalProperties"); ok {
+			out.set("additionalProperties", c12RepairNode(t.Map.ValueType, it, fixAny, fixNull))
+		}
+	case t.Kind == ast.KindDisjunction && t.Disjunction != nil:
+		if alts, ok := out.get("anyOf"); ok && alts.K == 'a' && len(alts.A) == len(t.Disjunction.Branches) {
+			na := alts.clone()
+			for i, b := range t.Disjunction.Branches {
+				na.A[i] = c12RepairNode(b, na.A[i], fixAny, fixNull)
+			}
+			out.set("anyOf", na)
+		}
+	}
+	if fixNull && t.Nullable {
+		return jObj(kv("anyOf", jArr(out, jObj(kv("type", jStr("null"))))))
+	}
+	return out
+}
+
+// c12Repair applies c12RepairNode to the definitions of the objects of schema.
+func c12Repair(schema *ast.Schema, emitted JV, fixAny, fixNull bool) JV {
+	out := emitted.clone()
+	defs, ok := out.get("definitions")
+	if !ok || defs.K != 'o' {
+		return out
+	}
+	nd := defs.clone()
+	schema.Objects.Iterate(func(_ string, o ast.Object) {
+		if d, ok := nd.get(o.Name); ok {
+			nd.set(o.Name, c12RepairNode(o.Type, d, fixAny, fixNull))
+		}
+	})
+	out.set("definitions", nd)
+	return out
+}
+
+// c12ExplainedBy: which of the recorded mechanisms (alone or together) make the document valid
+// once repaired in the emitted schema; "" when none does.
+func c12ExplainedBy(schema *ast.Schema, emitted JV, root string, doc JV) string {
+	try := func(fixAny, fixNull bool) bool {
+		rv, err := newRefValidator("jsonschema", c12Repair(schema, emitted, fixAny, fixNull).json(), root)
+		return err == nil && rv.validate(doc) == nil
+	}
+	switch {
+	case try(true, false):
+		return "any"
+	case try(false, true):
+		return "nullable"
+	case try(true, true):
+		return "any+nullable"
+	}
+	return ""
+}
+
 // ---- one verdict per emitted document ------------------------------------------------------
 
 func c12VerdictJSONSchema(schemas ast.Schemas, schema *ast.Schema, text []byte, loaders bool) string {
@@ -547,6 +651,9 @@ func c12VerdictJSONSchema(schemas ast.Schemas, schema *ast.Schema, text []byte, 
 	}
 	var fails []string
 	if bad := c12Unresolved(doc, false); len(bad) > 0 {
+		if dangling := c12DanglingIR(schemas, schema); len(dangling) > 0 {
+			return fmt.Sprintf("ok input-ir-has-dangling-references %v unresolved=%v", dangling, bad)
+		}
 		fails = append(fails, fmt.Sprintf("ref-unresolved %v", bad))
 	}
 	fails = append(fails, c12CheckDefinitions(schemas, schema, defs, c12JSPrefix)...)
@@ -573,6 +680,9 @@ func c12VerdictOpenAPI(schemas ast.Schemas, schema *ast.Schema, text []byte, loa
 	defs, _ := c12Definitions(doc, true)
 	var fails []string
 	if bad := c12Unresolved(doc, true); len(bad) > 0 {
+		if dangling := c12DanglingIR(schemas, schema); len(dangling) > 0 {
+			return fmt.Sprintf("ok input-ir-has-dangling-references %v unresolved=%v", dangling, bad)
+		}
 		fails = append(fails, fmt.Sprintf("ref-unresolved %v", bad))
 	}
 	fails = append(fails, c12CheckDefinitions(schemas, schema, defs, c12OAPrefix)...)
